@@ -26,7 +26,9 @@ _CMP = {ast.Eq: operator.eq, ast.NotEq: operator.ne, ast.Lt: operator.lt, ast.Lt
         ast.Gt: operator.gt, ast.GtE: operator.ge, ast.Is: operator.is_, ast.IsNot: operator.is_not,
         ast.In: lambda a, b: a in b, ast.NotIn: lambda a, b: a not in b}
 _SAFE_FUNCS = {"int": int, "abs": abs, "min": min, "max": max, "len": len, "range": range, "divmod": divmod,
-               "tuple": tuple, "list": list, "sum": sum, "bool": bool, "str": str}
+               "tuple": tuple, "list": list, "sum": sum, "bool": bool, "str": str, "enumerate": lambda *a: list(enumerate(*a)),
+               "set": set, "frozenset": frozenset, "sorted": sorted, "zip": lambda *a: list(zip(*a)), "reversed": lambda a: list(reversed(a)),
+               "any": any, "all": all, "dict": dict}
 
 
 def ev(node, env: dict, funcs: dict | None = None):
@@ -124,10 +126,17 @@ def ev(node, env: dict, funcs: dict | None = None):
                 raise NotFinite(f"{type(ex).__name__} in {unparse(n)}")
         if isinstance(n, ast.Call):
             name = dotted(n.func)
-            args = [e(a, env) for a in n.args]
+            args = []
+            for a in n.args:
+                if isinstance(a, ast.Starred):
+                    args.extend(e(a.value, env))
+                else:
+                    args.append(e(a, env))
             kws = {k.arg: e(k.value, env) for k in n.keywords}
             if name in funcs:
                 return funcs[name](*args, **kws)
+            if name in env and callable(env[name]):
+                return env[name](*args, **kws)
             if name in _SAFE_FUNCS:
                 return _SAFE_FUNCS[name](*args, **kws)
             raise NotFinite(f"call {unparse(n)[:50]}")
